@@ -39,8 +39,8 @@ SCOPE = {
 }
 
 ALPH = 'ACGT'
-P_ATOL = 1e-10
-P_RTOL = 1e-8
+P_ATOL = 2e-11
+P_RTOL = 1e-9
 D_TOL = 2e-7          # -sqrt(|x|^2+|y|^2-2xy) loses half the digits near 0
 NBINS = (10, 25, 50, 100, 127, 128, 150, 200)
 
@@ -244,7 +244,8 @@ def _call(Qs, Ts, case, **extra):
 
 
 def check_ref(case):
-    """every (query, target) cell of one tomtom call against the reference.  Returns strings
+    """every (query, target, strand) cell of one tomtom call against the reference, and - with
+    reverse_complement - the merged cell against the two single-strand cells.  Returns strings
     '[finding-key] message'."""
     return ['[%s] %s' % kv for kv in _check_ref(case)[0]]
 
@@ -260,7 +261,10 @@ def _check_ref(case):
         return [], {'skipped': 'degenerate'}
     out = []
     try:
-        R = _call(Qs, Ts, case)
+        # single-strand cells: with rc the same pooled columns are obtained by passing both strands
+        # as explicit targets
+        S = _call(Qs, Ts2, case, reverse_complement=False)
+        M = _call(Qs, Ts, case) if rc else None
     except ZeroDivisionError:
         return [], {'skipped': 'ZeroDivisionError'}
     n_t = len(Ts)
@@ -275,51 +279,63 @@ def _check_ref(case):
             continue
         xfull = x[inv]                                    # (all pooled positions, nq)
         ref = NullRef(x, counts, off, nb)
-        for it in range(n_t):
-            strands = [it, it + n_t] if rc else [it]
-            per = []
-            for s in strands:
-                xt = xfull[starts[s]:starts[s + 1]]
-                al = align_scores(xt, nq, off)
-                best = max(v[0] for v in al.values())
-                per.append((al, best, ref.p_value(xt.shape[0], best), xt.shape[0]))
-            p, sc, of, ov, st = (float(R[j, iq, it]) for j in range(5))
-            cls = classify(x, off, [q[1] for q in per], nb)
+        g = x - off
+        wide = nb > 127 and (g.min() < -128 or g.max() > 127)
+        zero_mass = bool((x == 0).any())
+        bests = []
+        for s in range(len(Ts2)):
+            xt = xfull[starts[s]:starts[s + 1]]
+            nt = xt.shape[0]
+            al = align_scores(xt, nq, off)
+            best = max(v[0] for v in al.values())
+            bests.append(best)
+            p_ref = ref.p_value(nt, best)
+            cls = 'int8-similarity-overflow' if wide else 'best-score-0' if best == 0 else 'null-mass-at-score-0' if zero_mass else None
             stats['cells'] += 1
             if cls:
                 stats['classes'].add(cls)
-            tag = 'query %d (len %d) target %d (len %d)' % (iq, nq, it, per[0][3])
-            best = max(q[1] for q in per)
-            if rc:
-                pmin = min(per[0][2], per[1][2])
-                p_ref = 1.0 - (1.0 - pmin) ** 2 if pmin > 1e-8 else 2 * pmin - pmin * pmin
-            else:
-                p_ref = per[0][2]
+            p, sc, of, ov, st = (float(S[j, iq, s]) for j in range(5))
+            tag = 'query %d (len %d) vs target %d%s (len %d)' % (iq, nq, s % n_t, ' rc' if s >= n_t else '', nt)
             if sc != best:
                 out.append((cls or 'score-mismatch', '%s: score %r, reference maximum over offsets %d' % (tag, sc, best)))
                 continue
-            if st not in ((0.0, 1.0) if rc else (0.0,)):
-                out.append((cls or 'strand-mismatch', '%s: strand %r' % (tag, st)))
-                continue
-            al, sbest, _, nt = per[int(st)]
-            if sbest != best:
-                out.append((cls or 'strand-mismatch', '%s: reported strand %d scores %d < %d of the other strand' % (tag, int(st), sbest, best)))
-            elif not (of == int(of) and int(of) in al and al[int(of)] == (best, int(ov)) and ov == int(ov)):
-                out.append((cls or 'offset-overlap-mismatch', '%s: reported offset %r / overlap %r do not attain score %d (reference: %s)'
+            if st != 0:
+                out.append((cls or 'strand-mismatch', '%s: strand %r without reverse complement' % (tag, st)))
+            n_best = sum(1 for v in al.values() if v[0] == best)
+            stats['ties'] += n_best > 1
+            if not (of == int(of) and ov == int(ov) and int(of) in al and al[int(of)] == (best, int(ov))):
+                out.append((cls or 'offset-overlap-mismatch', '%s: reported offset %r / overlap %r do not attain score %d (attained at offsets %s)'
                             % (tag, of, ov, best, sorted(o for o, v in al.items() if v[0] == best))))
-            if sum(1 for v in al.values() if v[0] == best) > 1:
-                stats['ties'] += 1
             err = abs(p - p_ref)
             if not (err <= P_ATOL + P_RTOL * p_ref):
                 out.append((cls or 'pvalue-mismatch', '%s: p-value %r, reference %r (score %d)' % (tag, p, p_ref, best)))
             else:
-                stats['max_p_err'] = max(stats['max_p_err'], err)
-            if case.get('self') and it == iq and per[0][0][0] != (per[0][1], nq):
-                out.append((cls or 'self-match', '%s: a motif against itself scores %s at offset 0, best %d'
-                            % (tag, per[0][0][0], per[0][1])))
-            if case.get('self') and it == iq and not rc and (of != 0 or ov != nq) and \
-                    sum(1 for v in al.values() if v[0] == best) == 1:
-                out.append((cls or 'self-match', '%s: self match reported at offset %r overlap %r' % (tag, of, ov)))
+                if cls is None and err > stats['max_p_err']:
+                    stats['max_p_err'], stats['max_p_at'] = err, (tag, p, p_ref, best)
+            if case.get('self') and s == iq:
+                if al[0] != (best, nq):
+                    out.append((cls or 'self-match', '%s: a motif against itself scores %s at offset 0, best is %d' % (tag, al[0], best)))
+                elif n_best == 1 and (of != 0 or ov != nq):
+                    out.append((cls or 'self-match', '%s: self match reported at offset %r overlap %r' % (tag, of, ov)))
+        if not rc:
+            continue
+        for it in range(n_t):
+            a, b, m = S[:, iq, it], S[:, iq, it + n_t], M[:, iq, it]
+            cls = 'int8-similarity-overflow' if wide else 'best-score-0' if min(bests[it], bests[it + n_t]) == 0 else None
+            tag = 'query %d (len %d) vs target %d, strands merged' % (iq, nq, it)
+            with numpy.errstate(all='ignore'):
+                pm = float(1.0 - (1.0 - numpy.minimum(a[0], b[0])) ** 2)
+            if not abs(float(m[0]) - pm) <= 1e-12:
+                out.append((cls or 'strand-merge-mismatch', '%s: p-value %r, single-strand p-values %r / %r give %r' % (tag, float(m[0]), float(a[0]), float(b[0]), pm)))
+            if m[1] != max(a[1], b[1]):
+                out.append((cls or 'strand-merge-mismatch', '%s: score %r, single-strand scores %r / %r' % (tag, float(m[1]), float(a[1]), float(b[1]))))
+            elif m[4] not in (0.0, 1.0) or (b if m[4] else a)[1] != m[1]:
+                out.append((cls or 'strand-merge-mismatch', '%s: reported strand %r is not the higher scoring one (%r / %r)' % (tag, float(m[4]), float(a[1]), float(b[1]))))
+            else:
+                s = it + (n_t if m[4] else 0)
+                al = align_scores(xfull[starts[s]:starts[s + 1]], nq, off)
+                if m[1] == bests[s] and not (m[2] == int(m[2]) and int(m[2]) in al and al[int(m[2])] == (bests[s], int(m[3])) and m[3] == int(m[3])):
+                    out.append((cls or 'strand-merge-mismatch', '%s: offset %r / overlap %r do not attain the score on the reported strand' % (tag, float(m[2]), float(m[3]))))
     return out, stats
 
 
@@ -335,6 +351,7 @@ def _check_rcmeta(case):
     Qs, Ts = mats(case['Q']), mats(case['T'])
     Tr = [_rc(T) for T in Ts]
     c = dict(case, rc=True)
+    nb = case['n_score_bins']
     pl, plr = pooled(Ts, True, case.get('n_target_bins')), pooled(Tr, True, case.get('n_target_bins'))
     if pl is None or plr is None or degenerate(Qs, pl[1]):
         return [], {'skipped': True}
@@ -343,39 +360,33 @@ def _check_rcmeta(case):
     except ZeroDivisionError:
         return [], {'skipped': True}
     out, n_t, checked = [], len(Ts), 0
+    starts = numpy.concatenate([[0], numpy.cumsum([T.shape[1] for T in pl[0]])])
     for iq in range(len(Qs)):
-        xa, offa, _, _, _ = kernel(Qs, iq, pl[1], pl[2], case['n_score_bins'])
-        xb, offb, _, _, _ = kernel(Qs, iq, plr[1], plr[2], case['n_score_bins'])
+        nq = Qs[iq].shape[1]
+        xa, offa, _, _, _ = kernel(Qs, iq, pl[1], pl[2], nb)
+        xb, offb, _, _, _ = kernel(Qs, iq, plr[1], plr[2], nb)
         fa, fb = xa[pl[3]], xb[plr[3]]
-        nall = fa.shape[0]
-        # positions of run B: strands swapped
-        half = nall // 2
+        half = fa.shape[0] // 2
         if offa != offb or not numpy.array_equal(fa, numpy.concatenate([fb[half:], fb[:half]])):
-            continue
-        cls = classify(xa, offa, [1], case['n_score_bins'])
-        if (xa == 0).any():
-            cls = cls or 'null-mass-at-score-0'
+            continue                                   # rounding of the binned median differs: nothing asserted
+        g = xa - offa
+        wide = nb > 127 and (g.min() < -128 or g.max() > 127)
         for it in range(n_t):
-            a, b = A[:, iq, it], B[:, iq, it]
+            a, b = [float(v) for v in A[:, iq, it]], [float(v) for v in B[:, iq, it]]
+            al = [align_scores(fa[starts[s]:starts[s + 1]], nq, offa) for s in (it, it + n_t)]
+            best = [max(v[0] for v in d.values()) for d in al]
+            cls = 'int8-similarity-overflow' if wide else 'best-score-0' if min(best) == 0 else None
             checked += 1
             tag = 'query %d target %d' % (iq, it)
             if a[1] != b[1] or not abs(a[0] - b[0]) <= P_ATOL + P_RTOL * abs(a[0]):
-                out.append((cls or 'rc-target-changes-result', '%s: (p, score) %r vs %r after reverse-complementing the targets'
-                            % (tag, a[:2].tolist(), b[:2].tolist())))
+                out.append((cls or 'rc-target-changes-result', '%s: (p, score) %r vs %r after reverse-complementing the targets' % (tag, a[:2], b[:2])))
                 continue
-            starts = numpy.concatenate([[0], numpy.cumsum([T.shape[1] for T in pl[0]])])
-            nq = Qs[iq].shape[1]
-            s_plus = max(v[0] for v in align_scores(fa[starts[it]:starts[it + 1]], nq, offa).values())
-            s_minus = max(v[0] for v in align_scores(fa[starts[it + n_t]:starts[it + n_t + 1]], nq, offa).values())
-            if s_plus == s_minus or min(s_plus, s_minus) == 0:
-                continue
+            if best[0] == best[1]:
+                continue                               # equal strands: either may be reported
             if a[4] + b[4] != 1 or a[3] != b[3]:
-                out.append((cls or 'rc-target-changes-result', '%s: strands %r/%r overlaps %r/%r' % (tag, a[4], b[4], a[3], b[3])))
-            else:
-                ties = sum(1 for v in align_scores(fa[starts[it + (n_t if a[4] else 0)]:starts[it + (n_t if a[4] else 0) + 1]], nq, offa).values()
-                           if v[0] == max(s_plus, s_minus))
-                if ties == 1 and a[2] != b[2]:
-                    out.append((cls or 'rc-target-changes-result', '%s: offsets %r vs %r' % (tag, a[2], b[2])))
+                out.append((cls or 'rc-target-changes-result', '%s: strands %r / %r, overlaps %r / %r' % (tag, a[4], b[4], a[3], b[3])))
+            elif a[4] in (0.0, 1.0) and sum(1 for v in al[int(a[4])].values() if v[0] == max(best)) == 1 and a[2] != b[2]:
+                out.append((cls or 'rc-target-changes-result', '%s: offsets %r vs %r' % (tag, a[2], b[2])))
     return out, {'checked': checked}
 
 
@@ -401,8 +412,13 @@ def _record(rep, case, res, section, key, nontrivial=True):
     viol, stats = res
     rep.case(key, nontrivial=nontrivial and not stats.get('skipped'), section=section,
              sample={k: case[k] for k in case if k not in ('Q', 'T')} | {'Q': str(case['Q'])[:120], 'T': str(case['T'])[:120]})
+    # at most two violations per finding key and case are stored (every cell is still evaluated)
+    seen = {}
     for k, m in viol:
-        rep.violation(m, case, finding=k)
+        seen.setdefault(k, []).append(m)
+    for k, ms in seen.items():
+        for m in ms[:2]:
+            rep.violation(m + (' (+%d more cells of this case)' % (len(ms) - 2) if len(ms) > 2 and m is ms[1] else ''), case, finding=k)
     return stats
 
 
@@ -462,42 +478,44 @@ def run(rep):
     thorough = rep.tier == 'thorough'
     rng = rep.rng
     _warm(rep)
-    # --- one-hot (coarsest grid) queries against fixed target sets
+    # --- one-hot (coarsest grid) queries against fixed target sets: the smallest inputs first
     tsets = ONEHOT_TARGETS if thorough else ONEHOT_TARGETS[:6]
     qs = list(_onehot_queries(3))
     if not thorough:
         qs = [q for q in qs if len(q) == 1] + rng.sample([q for q in qs if len(q) == 2], 6) + rng.sample([q for q in qs if len(q) == 3], 6)
-    n_onehot = 0
+    n_onehot, complete = 0, True
     for ti, ts in enumerate(tsets):
         for rc in (False, True):
-            # queries are co-processed in groups of 4 (the cells are checked individually)
+            # queries are co-processed in groups of 4 (every cell is checked individually)
             for g in range(0, len(qs), 4):
-                if rep.left() < (rep.budget_s * 0.55):
+                if rep.left() < rep.budget_s * 0.5:
+                    complete = False
                     break
-                case = {'kind': 'ref', 'Q': qs[g:g + 4], 'T': ts, 'n_score_bins': rng.choice([20, 100]) if g % 8 else 100,
-                        'rc': rc, 'n_target_bins': None}
-                st = _record(rep, case, _check_ref(case), 'onehot', ('oh', ti, rc, g, case['n_score_bins']))
+                nb = 100 if g % 8 == 0 else rng.choice([20, 127, 200])
+                case = {'kind': 'ref', 'Q': qs[g:g + 4], 'T': ts, 'n_score_bins': nb, 'rc': rc, 'n_target_bins': None}
+                _record(rep, case, _check_ref(case), 'onehot', ('oh', ti, rc, g, nb))
                 n_onehot += 1
-    if thorough and n_onehot == len(tsets) * 2 * ((len(qs) + 3) // 4):
+    if thorough and complete:
         rep.mark_exhaustive('all one-hot queries of length 1-3 against the 12 fixed one-hot target sets, rc on/off')
     # --- seeded random sets
-    k = 0
-    maxerr = 0.0
-    classes = set()
-    while not rep.out_of_time():
-        if not thorough and k >= 45:
-            break
+    k, maxerr, classes, skipped = 0, 0.0, set(), 0
+    limit = 10 ** 9 if thorough else 1000
+    while k < limit and rep.left() > (20 if thorough else 8):
         case = _random_case(rng, thorough)
         st = _record(rep, case, _check_ref(case), 'self' if case.get('self') else 'random', ('rnd', k))
         maxerr = max(maxerr, st.get('max_p_err', 0.0))
         classes |= st.get('classes', set())
-        if k % 3 == 0 and not rep.out_of_time():
+        skipped += bool(st.get('skipped'))
+        if k % 3 == 0:
             c2 = dict(case, kind='rcmeta')
             c2.pop('self', None)
             _record(rep, c2, _check_rcmeta(c2), 'rc-metamorphic', ('rcm', k))
         k += 1
-    rep.note('random sets evaluated: %d; largest |p - p_ref| among agreeing cells: %.3g; input classes met: %s'
-             % (k, maxerr, sorted(classes)))
+    rep.note('random sets evaluated: %d (%d skipped: degenerate or hashing not injective); largest |p - p_ref| among agreeing '
+             'cells outside the three defect classes: %.3g; input classes met: %s' % (k, skipped, maxerr, sorted(classes)))
+    rep.note('not exercised: n_score_bins > n_cache with the default n_cache=100 (tomtom prints "Offset is larger than n_cache" '
+             'and then writes past the scratch rows; observed to abort the process with heap corruption), so n_cache is raised '
+             'to n_score_bins whenever n_score_bins > 100')
 
 
 def replay(case):
